@@ -8,6 +8,15 @@ fn canon_list(v: &[String]) -> Option<Vec<String>> {
     v.iter().map(|n| iana_name(n).map(|s| s.to_string())).collect()
 }
 
+/// Which supported encoding a filter entry *spells*, decided without the crate's canonicaliser: a supported
+/// name verbatim, or what the codec library's WHATWG label table (trim + ASCII lower-case) resolves it to.
+fn spells(n: &str) -> Option<String> {
+    if supported().contains(&n) {
+        return Some(n.to_string());
+    }
+    encoding::label::encoding_from_whatwg_label(n).map(|e| e.whatwg_name().unwrap_or(e.name()).to_string())
+}
+
 impl DetectProp for C05 {
     fn id(&self) -> &'static str {
         "C05"
@@ -132,9 +141,21 @@ impl DetectProp for C05 {
                 if !ce.is_empty() {
                     cx.rep.count("oracle:exclude");
                 }
+                // the same lists read through the codec library's label table (independent of the crate's
+                // canonicaliser): an accepted entry that spells a supported encoding filters that encoding
+                let sup0 = supported();
+                let si: Vec<String> = s.incl.iter().filter_map(|n| spells(n)).collect();
+                let se: Vec<String> = s.excl.iter().filter_map(|n| spells(n)).filter(|e| sup0.contains(&e.as_str())).collect();
+                for (n, c) in s.incl.iter().chain(s.excl.iter()).zip(ci.iter().chain(ce.iter())) {
+                    if let Some(sp) = spells(n) {
+                        if &sp != c {
+                            cx.rep.fail("oracle", "C05:canonicaliser-does-not-canonicalise", &format!("entry {:?} spells {:?} but is canonicalised to {:?}", n, sp, c), &case.bytes, Some(s), &case.tag);
+                        }
+                    }
+                }
                 for m in ms.iter() {
                     for e in m.suitable_encodings() {
-                        let bad = (!ci.is_empty() && !ci.contains(&e)) || ce.contains(&e);
+                        let bad = (!ci.is_empty() && !ci.contains(&e)) || ce.contains(&e) || (!si.is_empty() && si.len() == s.incl.len() && !si.contains(&e)) || se.contains(&e);
                         if bad {
                             let class = if case.bytes.is_empty() { "C05:empty-input-ignores-filters" } else { "C05:filter-violated" };
                             cx.rep.fail("oracle", class, &format!("candidate {} violates incl={:?} excl={:?}", e, ci, ce), &case.bytes, Some(s), &case.tag);
